@@ -133,6 +133,21 @@ func isNil(v reflect.Value) bool {
 	}
 }
 
+// basicNum 取出数字的基础类型值(去掉自定义类型上的 String() 等方法), 打印结果与原来对基础类型的 %v 一致
+func basicNum(v reflect.Value) interface{} {
+	switch v.Kind() {
+	case reflect.Int, reflect.Int8, reflect.Int16, reflect.Int32, reflect.Int64:
+		return v.Int()
+	case reflect.Uint, reflect.Uint8, reflect.Uint16, reflect.Uint32, reflect.Uint64, reflect.Uintptr:
+		return v.Uint()
+	case reflect.Float32:
+		return float32(v.Float())
+	case reflect.Float64:
+		return v.Float()
+	}
+	return v
+}
+
 // isNum 判断是否为数字
 func isNum(v reflect.Value) bool {
 	switch v.Kind() {
@@ -194,7 +209,8 @@ func equal(lhsV, rhsV reflect.Value) bool {
 	}
 
 	if isNum(lhsV) && isNum(rhsV) {
-		return fmt.Sprintf("%v", lhsV) == fmt.Sprintf("%v", rhsV)
+		// 按基础类型的数值比较: 直接 %v 打印会调用自定义类型的 String() 方法
+		return fmt.Sprintf("%v", basicNum(lhsV)) == fmt.Sprintf("%v", basicNum(rhsV))
 	}
 
 	if r, done := boolEquals(lhsV, rhsV); done {
